@@ -153,15 +153,20 @@ def calls(fam: str, a: dict) -> List[Tuple[str, List[Any], Callable[[], Any]]]:
                 subs[r, 1] = r - 1
         vals = np.arange(1.0, a["nvals"] + 1)[:, None]
         out.append(("sptensor.__init__", [subs, vals], lambda: ttb.sptensor(subs, vals, tuple(a["shape"]))))
+        out.append(("sptensor.__init__(copy=False)", [subs, vals], lambda: ttb.sptensor(subs, vals, tuple(a["shape"]), copy=False)))
         out.append(("sptensor.from_aggregator", [subs, vals], lambda: ttb.sptensor.from_aggregator(subs, vals, tuple(a["shape"]))))
     elif fam == "ctor_ktensor":
         U = [np.ones((r, c)) for r, c in zip(a["rows"], a["cols"])]
         w = np.ones(a["nweights"])
         out.append(("ktensor.__init__", U + [w], lambda: ttb.ktensor(U, w)))
+        Uf = [np.asfortranarray(u) for u in U]
+        out.append(("ktensor.__init__(copy=False)", Uf + [w], lambda: ttb.ktensor(Uf, w, copy=False)))
     elif fam == "ctor_ttensor":
         core_t = mk_dense(a["core"])
         U = [np.ones((r, c)) for r, c in zip(a["rows"] + [2] * 3, a["cols"])]
         out.append(("ttensor.__init__", [core_t] + U, lambda: ttb.ttensor(core_t, U)))
+        Uf = [np.asfortranarray(u) for u in U]
+        out.append(("ttensor.__init__(copy=False)", [core_t] + Uf, lambda: ttb.ttensor(core_t, Uf, copy=False)))
     elif fam == "ctor_sumtensor":
         parts = [mk_dense(s, i) for i, s in enumerate(a["shapes"])]
         out.append(("sumtensor.__init__", parts, lambda: ttb.sumtensor(parts)))
@@ -170,6 +175,11 @@ def calls(fam: str, a: dict) -> List[Tuple[str, List[Any], Callable[[], Any]]]:
             out.append(("sumtensor.__add__", [S0, parts[1]], lambda: S0 + parts[1]))
     elif fam in ("tenmat_mul", "tenmat_add"):
         def tm(ms):
+            if 1 in ms and max(ms) > 1:
+                # a column / row unfolding of a one-way tensor: same tensor shape, different matrix shapes
+                n = max(ms)
+                col = ms[1] == 1
+                return ttb.tenmat(np.arange(1.0, n + 1).reshape(ms[0], ms[1]), I([0]) if col else I([]), I([]) if col else I([0]), (n,))
             return ttb.tenmat(np.arange(1.0, ms[0] * ms[1] + 1).reshape(ms[0], ms[1]), I([0]), I([1]), tuple(ms))
         A, B = tm(a["left"]), tm(a["right"])
         if fam == "tenmat_mul":
